@@ -261,7 +261,7 @@ def report(ck, b, job, verdicts, label):
 # ------------------------------------------------------------------------------------------------------
 FP = 10 ** 9        # fixed-point scale of the logged margins (relative to the trace of the covariance)
 VTOL = 1e-9         # tolerance the trace spec applies to the measured margins (relative; worst observed 3e-14)
-FMTOL = 1e-4        # lossless S-AdaGrad vs full-matrix AdaGrad on scale-disparate histories (worst observed 1e-7:
+FMTOL = 1e-5        # lossless S-AdaGrad vs full-matrix AdaGrad on scale-disparate histories (worst observed 1e-7:
                     # (delta I + C)^(-1/2) with cond up to 1e15)
 
 
@@ -281,10 +281,17 @@ def v_jobs(ck, n):
       d = max(d, 4); k = max(k, 3); k = min(k, d)
       r = k - 1
       basis = orth(rs, d)[:r]
-      sc = 10.0 ** rs.uniform(-3, 3, size=r)
+      # small regularisation: a direction dropped from the sketch would be preconditioned by delta^(-1/2).
+      # With delta = 1e-8 the scales stay <= 1: the SVD's own round-off in rho^2 (~1e-16 sigma_max^2) must
+      # stay far below delta, or float64 itself cannot tell the lossless sketch from full-matrix AdaGrad
+      # (observed on the unchanged code: 3e-4 at sigma_max 1e3)
+      delta = [1e-3, 1e-8][i // 20 % 2]
+      sc = 10.0 ** (rs.uniform(-3, 3, size=r) if delta == 1e-3 else rs.uniform(-5, 0, size=r))
       G = (rs.standard_normal((T, r)) * sc[None, :]) @ basis
-      if delta == 0.0 or delta == 3.0:
-        delta = 1e-3
+      if i // 40 % 2:
+        # ... or whole steps on different scales (tiny gradients, then a spike) inside the same subspace
+        st = 10.0 ** (rs.uniform(-3, 3, size=T) if delta == 1e-3 else rs.uniform(-5, 0, size=T))
+        G = (rs.standard_normal((T, r)) @ basis) * st[:, None]
     
     if kind == "lowrank":          # history of rank < sketch size: nothing may escape
       r = max(1, k - 1 - int(rs.randint(0, 2)))
